@@ -69,6 +69,39 @@ def systematic():
 CLASSES = {"type", "null-allowed", "valid"}
 
 
+def nullable_composites():
+    """allOf / anyOf groups whose members are nullable objects (both spellings of the type list, one to three members, inline and as a definition): every
+    typed property below the group still rejects a value of another JSON type"""
+    from vlib.kitchen import Case
+    b1 = {"properties": {"zip": {"type": "integer"}, "fragile": {"type": "boolean"}}}
+    b2 = {"properties": {"street": {"type": "string"}, "tags": {"type": "array", "items": {"type": "string"}}}}
+    b3 = {"properties": {"weight": {"type": "number"}}}
+    good = {"zip": 5, "fragile": True, "street": "s", "tags": ["a"], "weight": 1.5}
+    bad = {"zip": ["x", 1.5, True], "fragile": [1, "true"], "street": [5, False], "tags": [[1], "a", {"a": 1}], "weight": ["1", True]}
+    out = []
+    n = 0
+    for comb in ("allOf", "anyOf"):
+        for tl in (["object", "null"], "object", ["object"]):
+            for brs in ([b1], [b1, b2], [b1, b2, b3]):
+                for place in ("inline", "item"):        # a composite-only definition behind a $ref is the recorded finding C11-untyped-composite-ref
+                    grp = {comb: [dict(b, type=tl) for b in brs]}
+                    keys = [k for b in brs for k in b["properties"]]
+                    w = (lambda v: [v]) if place == "item" else (lambda v: v)
+                    if place == "inline":
+                        root = {"type": "object", "properties": {"shipping": grp}}
+                    elif place == "definition":
+                        root = {"type": "object", "properties": {"shipping": {"$ref": "#/$defs/Ship"}}, "$defs": {"Ship": grp}}
+                    else:
+                        root = {"type": "object", "properties": {"shipping": {"type": "array", "items": grp}}}
+                    docs = [{"doc": {"shipping": w({k: good[k] for k in keys})}, "cls": "valid", "path": (), "expect": "ACC"}]
+                    for k in keys:
+                        for v in bad[k]:
+                            docs.append({"doc": {"shipping": w(dict({x: good[x] for x in keys}, **{k: v}))}, "cls": "type", "path": ("shipping", k), "expect": "REJ"})
+                    out.append(Case("c03nc%d" % n, root, docs, fam="nullable-composite/%s/%s/%d/%s" % (comb, json.dumps(tl), len(brs), place), no_model=True))
+                    n += 1
+    return out
+
+
 def run(ctx):
     ctx.proof_step(PROPS_FILE)
     n = 30 if ctx.tier == "quick" else 400
@@ -86,8 +119,25 @@ def run(ctx):
     from vlib.pairwise import sized_enum
     sysi = [r for r in sysm if "integer" in json.dumps(r) and not sized_enum(r)]
     cases += build_cases(ctx, len(sysi), None, CLASSES | {"null-not-allowed"}, "c03m", extra_schemas=sysi, docs_per=2, minsized=True, fam="min-sized")
-    run_cases(ctx, cases, "c03")
+    nc = nullable_composites()
+    run_cases(ctx, cases + nc, "c03")
     evaluate(ctx, cases, CLASSES, {"type": "invalid", "null-allowed": "valid", "valid": "valid"}, "JSON types")
+    nnc = 0
+    for c in nc:
+        if not c.build_ok:
+            if nnc < 3:
+                ctx.violation("oracle", dict(c.replay_obj(), gen_err=c.gen_err, build_err=c.build_err), "%s: generation failed or does not build: %s" % (c.fam, (c.gen_err or c.build_err)[:300]))
+            nnc += 1
+            continue
+        ctx.cov["programs"] += 1
+        for di, d in enumerate(c.docs):
+            o = d.get("obs") or {}
+            ctx.count({"f": c.fam, "d": d["doc"]}, d["cls"] == "type", "nullable-composite")
+            if o.get("v") != d["expect"] and nnc < 3:
+                ctx.violation("oracle", c.replay_obj(di), "%s: document %s is %s under the schema but the generated code answers %s" % (
+                    c.fam, json.dumps(d["doc"]), "valid" if d["expect"] == "ACC" else "invalid (a value of another JSON type at %s)" % "/".join(d["path"]), o.get("v")))
+                nnc += 1
+                break
     from vlib.valuecheck import replay_findings
     from vlib import regress
     regress.search(ctx, {"C03"})          # the shape-agnostic search step (DESIGN.md 12.8)
